@@ -31,6 +31,9 @@ pub enum Sys {
     Memory,
     Disk,
     Container,
+    /// `MultiLayerCacheImpl` over [MemoryCache (roomy), DiskCache]; setup puts go to the disk
+    /// layer only (`put_to_layer(.., 1)`), so that lookups travel through both layers
+    Multi,
 }
 
 impl Sys {
@@ -39,6 +42,7 @@ impl Sys {
             Sys::Memory => "memory",
             Sys::Disk => "disk",
             Sys::Container => "container",
+            Sys::Multi => "multi",
         }
     }
 }
@@ -242,6 +246,7 @@ pub enum System {
     Mem(MemoryCache<SKey>),
     Disk(DiskCache<SKey>),
     Cont(DynamicContainer),
+    Multi(cascette_cache::multi_layer::MultiLayerCacheImpl<SKey>),
 }
 
 const YEAR: Duration = Duration::from_secs(365 * 24 * 3600);
@@ -271,6 +276,13 @@ impl System {
             })
             .map(System::Disk)
             .map_err(|e| e.to_string()),
+            Sys::Multi => {
+                let mem = MemoryCacheConfig { max_entries: ROOMY, max_memory_bytes: None, default_ttl: None, cleanup_interval: YEAR, ..MemoryCacheConfig::default() };
+                let disk = DiskCacheConfig { default_ttl: None, use_subdirectories: false, cleanup_interval: YEAR, sync_interval: YEAR, ..DiskCacheConfig::new(dir.join("cache")) };
+                let cfg = cascette_cache::config::MultiLayerCacheConfig::new().add_memory_layer(mem).add_disk_layer(disk);
+                let _g = rt.enter();
+                cascette_cache::multi_layer::MultiLayerCacheImpl::<SKey>::new(cfg).map(System::Multi).map_err(|e| e.to_string())
+            }
             Sys::Container => {
                 let c = DynamicContainer::builder(dir.join("store")).build().map_err(|e| e.to_string())?;
                 rt.block_on(c.open()).map_err(|e| e.to_string())?;
@@ -284,6 +296,26 @@ impl System {
         match self {
             System::Mem(c) => exec_cache(c, op, task, opi).await,
             System::Disk(c) => exec_cache(c, op, task, opi).await,
+            System::Multi(c) => {
+                // setup: the value lives in the slower layer only
+                if task == SETUP_TASK {
+                    if let Op::Put { k } = op {
+                        use cascette_cache::traits::MultiLayerCache;
+                        return match c.put_to_layer(SKey(key_name(k)), Bytes::from(cache_value(task, opi)), 1).await {
+                            Ok(()) => Res::Unit,
+                            Err(e) => Res::Err(e.to_string()),
+                        };
+                    }
+                }
+                match (op, exec_cache(c, op, task, opi).await) {
+                    // remove() reports "found in some layer", collected layer by layer without a common
+                    // lock: two overlapping removes can both report true (listed finding
+                    // C11:multi:remove-result-not-atomic-across-layers). The effect of the remove is
+                    // judged, its boolean is not.
+                    (Op::Remove { .. }, Res::Bool(_)) => Res::Unit,
+                    (_, r) => r,
+                }
+            }
             System::Cont(c) => {
                 let k = op.key().unwrap_or(0);
                 let key = container_key(k);
@@ -335,6 +367,9 @@ impl System {
                 let n = c.entry_count();
                 Ok((n, n, 0))
             }
+            // size() adds the layers up and a value may sit in both: the books of the layers are
+            // judged on the layers themselves (sections *-memory and *-disk)
+            System::Multi(_) => Ok((usize::MAX, usize::MAX, usize::MAX)),
         }
     }
 }
